@@ -131,8 +131,8 @@ func (g *Gen) RegSet(cfg GenCfg) []*Reg {
 				reg.As = []int{16 + g.n(4)}
 				if g.p(0.4) {
 					a := 16 + g.n(4)
-					if a != reg.As[0] {
-						reg.As = append(reg.As, a)
+					if a != reg.As[0] || g.p(0.1) {
+						reg.As = append(reg.As, a) // (rarely the same interface twice: refused as a whole)
 					}
 				}
 			}
@@ -145,8 +145,8 @@ func (g *Gen) RegSet(cfg GenCfg) []*Reg {
 				if g.p(0.2) {
 					t = 16 + g.n(4)
 				}
-				if seen[t] {
-					continue
+				if seen[t] && !g.p(0.04) {
+					continue // (rarely: one type twice - the registration collides with itself and is refused as a whole)
 				}
 				seen[t] = true
 				reg.Form.Rets = append(reg.Form.Rets, t)
@@ -212,8 +212,8 @@ func (g *Gen) RegSet(cfg GenCfg) []*Reg {
 				reg.As = []int{16 + g.n(4)}
 				if g.p(0.4) {
 					a := 16 + g.n(4)
-					if a != reg.As[0] {
-						reg.As = append(reg.As, a)
+					if a != reg.As[0] || g.p(0.1) {
+						reg.As = append(reg.As, a) // (rarely the same interface twice: refused as a whole)
 					}
 				}
 			}
